@@ -47,6 +47,22 @@ def run(ctx):
         if zero:
             raise vlib.ToolError("vacuous actions in %s: %s" % (lab, zero))
     rep.settle(describe=describe)
+    # the attachment index itself (util.AttachmentsMap): every history of <= 2 (quick) / 3 (thorough) Add* calls, all queries
+    acfg = "SPECIFICATION Spec\nCONSTANTS\n  MaxOps = %d\n  Emit = TRUE\nINVARIANTS Agree EmitInv\nPROPERTIES Independent\nCHECK_DEADLOCK FALSE\n" % (3 if thorough else 2)
+    ar = ctx.tlc("Attachments", acfg, label="c04_attachments", collect_emit=False, timeout=2400)
+    import json
+    import subprocess
+    with open(ar["out"]) as f:
+        pr = subprocess.run([ctx.vh(), "attachments-replay"], stdin=f, stdout=subprocess.PIPE, stderr=subprocess.PIPE, text=True)
+    if pr.returncode not in (0, 1):
+        raise vlib.ToolError("attachments-replay failed: " + pr.stderr[-800:])
+    ares = json.loads(pr.stdout)
+    if ares["histories"] != ar["distinct"]:
+        raise vlib.ToolError("replayed %d histories, TLC found %d states" % (ares["histories"], ar["distinct"]))
+    for mm in (ares["mismatches"] or [])[:2]:
+        if len(ctx.violations) < 3:
+            ctx.violation("AttachmentsMap after %s: %s = %s, the specification says %s" % (mm["history"], mm["query"], mm["observed"], mm["expected"]),
+                          {"kind": "attachments", "scenario": mm})
     nreal = 0
     if not ctx.violations:
         nreal = progcheck.real_drivers(ctx, real_items, cats, rep)
@@ -61,6 +77,8 @@ def run(ctx):
         "scenarios_emitted_by_tlc": total,
         "replayed_in_process": rep.run,
         "replayed_real_binary_and_vet": nreal,
+        "attachment_histories_replayed": ares["histories"],
+        "attachment_queries": ares["queries"],
         "exhaustive": True,
-    }, assumptions=["fragment: direct imports, one reference per top-level declaration; methods promoted through embedding are not generated",
+    }, assumptions=["fragment: direct imports, one reference per top-level declaration",
                     "diagnostics are compared as (file, line, code) sets of the PKGO category"])
